@@ -47,10 +47,28 @@ def run(ctx):
                 if name == disc:
                     base[val[0]] = val[1]
             nm = sweep.names_of(d, bf)
-            pick = nm if not ctx.quick() else (nm[:4] + rng.sample(nm, min(len(nm), 4)))
-            for an in pick[:60]:
-                for v in rng.sample(sweep.POOL, 3 if ctx.quick() else 10):
+            lt = msggen.leaf_types(d)
+            counts = {c: 1 for c in count_names(d)}
+            # type-directed: every distinct (type, scaled?) of the definition gets the bad values that matter for it
+            seen_kinds = set()
+            pick = []
+            for an in nm:
+                t = lt.get(msggen.base_name(an))
+                kind = (t[0], t[1] is not None) if t else None
+                if kind not in seen_kinds:
+                    seen_kinds.add(kind)
+                    pick.append((an, True))
+            extra = nm if not ctx.quick() else rng.sample(nm, min(len(nm), 4))
+            pick += [(an, False) for an in extra[:60]]
+            for an, directed in pick:
+                t = lt.get(msggen.base_name(an))
+                vals = list(rng.sample(sweep.POOL, 3 if ctx.quick() else 10))
+                if directed and t:
+                    vals += bad_values_for(t[0], rng)
+                for v in vals:
                     kw = {**base, an: v}
+                    if an != msggen.base_name(an):        # a group member: make its group repeat
+                        kw = {**counts, **kw}
                     cases.append((mode, name, d, key, bf, kw, an))
                     cmds.append(sweep.build_cmd(key, mode, bf, kw))
             for v in rng.sample(sweep.POOL, 4):      # the discriminators themselves
@@ -104,6 +122,35 @@ def run(ctx):
                     ctx.fail("other-field-altered", dict(inp, attribute=k), "nominal", repr(got)[:60])
                     ctx.failures[-1]["ctx"] = (mode, name, used, kw)
                     break
+
+
+def count_names(d):
+    from props.c03 import needed_counts
+    return needed_counts(d)
+
+
+def bad_values_for(t, rng):
+    """values at and just beyond what a field of this type can hold, and of the wrong shape"""
+    if t == "CH":
+        return ["", "x" * 40, b"\xff\xfe", 5, None]
+    if t.startswith("FLAG"):
+        w = int(t[4:7])
+        return [0, (1 << w) - 1, 1 << w, -1, 1.0, True, None, "1"]
+    c, n = t[0], int(t[1:4])
+    if c in "UEL":
+        return [0, (1 << (8 * n)) - 1, 1 << (8 * n), -1, 1.0, None, "1", b"\x01"]
+    if c == "I":
+        return [-(1 << (8 * n - 1)), (1 << (8 * n - 1)) - 1, 1 << (8 * n - 1), -(1 << (8 * n - 1)) - 1, 0.5, None]
+    if c == "X":
+        return [bytes(n), bytes(max(n - 1, 0)), bytes(n + 1), b"", 0, "ab", [0] * n]
+    if c == "C":
+        return [bytes(n), "a" * n, 0, None, [65] * n]
+    if c == "R":
+        return [0.0, -0.0, 1e39 if n == 4 else 1e308, float("nan"), float("inf"), 7, 10**400, "1.0", None]
+    if c == "A":
+        return [[0] * n, [255] * n, [1] * (n - 1), [1] * (n // 2), [], [1] * (n + 1), [256] + [0] * (n - 1), [-1] * n,
+                [1.0] * n, ["a"] * n, bytes(n), None, 5]
+    return []
 
 
 def merged_hp(k, kw):
